@@ -38,9 +38,22 @@ func (r *scriptReader) Read(p []byte) (int, error) {
 		line = r.adapt(lastPrompt(), line)
 	}
 	r.consumed++
+	if r.consumed > promptLoopLimit {
+		// Not a time budget: after the scripted lines every further line is the
+		// default answer, a valid number. A UI call that has read this many lines
+		// keeps rejecting valid input (or loops); the panic is reported by the
+		// caller as a crash of that call together with the last prompt.
+		r.consumed = 0
+		panic(fmt.Sprintf("the UI read more than %d input lines during one call without finishing; last prompt %q, last answer %q", promptLoopLimit, lastPrompt(), line))
+	}
 	n := copy(p, line+"\n")
 	return n, nil
 }
+
+// promptLoopLimit bounds the input lines one UI call may consume (the longest
+// legitimate call answers one prompt per unknown register or memory range of one
+// instruction plus the scripted invalid answers: a few dozen).
+const promptLoopLimit = 5000
 
 var uiInput = &scriptReader{dflt: "0"}
 var uiInputOnce sync.Once
